@@ -39,14 +39,17 @@ class FakeSamples:
         return {"Local": {self._basis: self._d}}
 
 
-def impl_run(case, samples_obj=None):
+def impl_run(case, samples_obj=None, all_atoms=True):
     from emu_base.pulser_adapter import _extract_omega_delta_phi
 
     import inspect
 
     obj = samples_obj if samples_obj is not None else FakeSamples(case)
-    # call it the way PulserData.get_sequences does (proposed fix of F-05 adds this keyword there)
-    kw = {"all_register_atoms": True} if "all_register_atoms" in inspect.signature(_extract_omega_delta_phi).parameters else {}
+    # all_atoms=True: call it the way PulserData.get_sequences does (keyword added by the fix of F-05);
+    # all_atoms=False: the keyword's default.  A source without the keyword is called plainly (and the
+    # column-count oracle then reports F-05).
+    has_kw = "all_register_atoms" in inspect.signature(_extract_omega_delta_phi).parameters
+    kw = {"all_register_atoms": all_atoms} if has_kw else {}
     try:
         om, de, ph = _extract_omega_delta_phi(obj, tuple(case["qids"]), list(case["tt"]), **kw)
     except ValueError as ex:
@@ -82,13 +85,14 @@ def canon_model(v):
     return ("?", str(v))
 
 
-def model_expr(case):
+def model_expr(case, all_atoms=True):
     ids = {q: i for i, q in enumerate(case["qids"])}
     for q in case["samples"]:
         ids.setdefault(q, len(ids))
     ss = "; ".join(f"({ids[q]}%Z, ({L(s['amp'])}, {L(s['det'])}, {L(s['phase'])}))" for q, s in case["samples"].items())
     qs = "; ".join(f"{ids[q]}%Z" for q in case["qids"])
-    return f"extract float_arith [{ss}] [{qs}] {L(case['tt'])} {int(case['max_duration'])}%Z"
+    fn = "extract float_arith" if all_atoms else "extract_with float_arith true false"
+    return f"{fn} [{ss}] [{qs}] {L(case['tt'])} {int(case['max_duration'])}%Z"
 
 
 # ---- generators ------------------------------------------------------------------------------------------
@@ -369,6 +373,18 @@ def run(ctx):
                 corr_ok = False
                 detail = f"case={json.dumps(c)[:600]} impl={str(i)[:300]} model={str(m)[:300]}"
                 ctx.extra["first_disagreement"] = {"case": c, "impl": i, "model": m}
+        # the keyword's default (columns only for addressed atoms) on the cases where it differs
+        sub = [c for c, o in zip(cases, objs) if o is None and len(c["samples"]) < len(c["qids"])]
+        ev2 = common.CoqEval("C22b", HEADER)
+        for c in sub:
+            ev2.add(model_expr(c, all_atoms=False))
+        outs2 = ev2.run(shard=ctx.n(12, 60)) if sub else []
+        for c, o in zip(sub, outs2):
+            m, i = canon_model(parse(o)), canon_impl(impl_run(c, all_atoms=False))
+            if m != i and corr_ok:
+                corr_ok = False
+                detail = f"[all_register_atoms=False] case={json.dumps(c)[:600]} impl={str(i)[:300]} model={str(m)[:300]}"
+        ctx.extra["default_keyword_cases"] = len(sub)
     except (common.CoqEvalError, ValueError) as ex:
         corr_ok, detail = False, str(ex)
     ctx.extra["input_distribution"] = {"/".join(k): v for k, v in sorted(hist.items())}
@@ -386,8 +402,10 @@ def run(ctx):
                          "scipy PchipInterpolator only as a falsifier oracle"]
     ctx.assumptions += ["samples are real tensors of length max_duration on the 1 ns grid (what Pulser produces)",
                         "at least two target times; theorems in exact real arithmetic",
-                        "findings F-09 / F-05: non-negativity holds only for the last row and columns exist only for "
-                        "addressed atoms in the current source (refuted in Coq, found by the falsifier)"]
+                        "findings F-09 / F-05 / F-11 are fixed in /repo (085d359, 8603313, b976cb3); their witnesses "
+                        "are regression cases in corpus/C22.json and would be reported under the same finding keys; "
+                        "the function is exercised as get_sequences calls it (all_register_atoms=True) and, for the "
+                        "correspondence, also with the keyword's default"]
 
 
 def replay(ctx, path):
@@ -403,12 +421,13 @@ META = {
     "category": "proof",
     "technique": "Coq proof (R instance of a hand-written Arith-generic model of _extract_omega_delta_phi over the C20 PCHIP model) + bit-exact PrimFloat correspondence with the real function on synthetic and real Pulser samples",
     "text": ("Proved for all sample dictionaries, registers and time grids: step midpoints; whenever the function "
-             "returns, every column of delta/phi is the C20 PCHIP interpolation of the atom's samples at every step "
-             "midpoint, omega the same with its last entry clamped at 0, columns are the addressed register atoms in "
-             "register order, max_duration = last target time; last amplitude row >= 0. The two parts of the property "
-             "that the current source violates are refuted in Coq with explicit witnesses (F-09 negative amplitude "
-             "before the last row; F-05 one column for a 3-atom register) and found on the real code by the "
-             "falsifier; the positive theorems for the fixed function are already proved for the switched model."),
+             "returns (as get_sequences calls it), omega/delta/phi have one column per register atom in register "
+             "order, zero for atoms no channel addresses; delta and phi are the C20 PCHIP interpolation of the atom's "
+             "samples at every step midpoint, omega is max(that interpolation, 0); every amplitude entry is >= 0; and "
+             "for non-negative samples the amplitude at every midpoint inside the sampled range IS the interpolation "
+             "and is >= 0 by C20's shape preservation (the clamp only acts on extrapolated steps). The pre-fix "
+             "variants (F-09, F-05) are still refuted in Proofs/DriveProofs.v. The PrimFloat instance is compared "
+             "bit-for-bit with the real function on synthetic and real Pulser samples, for both keyword values."),
     "note": ("Trusted: Coq kernel+VM, stdlib real axioms, the hand-written models (validated by the bit-exact "
              "correspondence), pulser as the producer of samples. Exact arithmetic in theorems."),
 }
